@@ -22,7 +22,7 @@ RULE = ('cases are histories (quick <=12, thorough <=40 operations, <=6 live app
         'failing add; distinct by hash of the operation list')
 ASSUMPTIONS = ['indices are interpreted as list.insert interprets them', 'patterns are leaves and probe paths canonical (no slash redirects)',
                'every application uses its own middleware type (no cross-application uniqueness merging)']
-REQUIRED_REACH = ['application-options-compared', 'application-options-compared:defaults', 'app-resource-named-like-a-route-resource', 'op:construct', 'op:add-route', 'op:add-tuple', 'op:add-subapp', 'op:embed-existing', 'op:rebind-route',
+REQUIRED_REACH = ['one-middleware-class-several-instances', 'middleware-types-related-by-inheritance', 'application-options-compared', 'application-options-compared:defaults', 'app-resource-named-like-a-route-resource', 'op:construct', 'op:add-route', 'op:add-tuple', 'op:add-subapp', 'op:embed-existing', 'op:rebind-route',
                   'op:failing-add', 'fail:unresolved', 'fail:conflict', 'fail:bad-pattern', 'fail:bad-middleware',
                   'fail:kth-of-subapp', 'fail:kth-of-subapp:k>1', 'index:negative', 'index:overshooting', 'index:negative-multi',
                   'route-bound-into>=2-apps', 'embedded-app-used-directly-later', 'probes-compared', 'fingerprints-compared', 'app-with-render-factory',
@@ -46,7 +46,7 @@ class World(object):
     def new_spec(self):
         self.n += 1
         return {'rid': 'r%d' % self.n, 'pattern': self.rng.pick(PATTERNS), 'methods': self.rng.pick(METHOD_SETS),
-                'beh': self.rng.pick(BEHS), 'render_arg': self.rng.chance(0.3), 'route_res': self.rng.chance(0.3)}
+                'beh': self.rng.pick(BEHS), 'render_arg': self.rng.chance(0.3), 'route_res': self.rng.chance(0.3), 'with_render': self.rng.chance(0.3)}
 
     def stamp_mw(self, label):
         from clastic import Middleware
@@ -54,12 +54,32 @@ class World(object):
         def request(self_, next):
             r = next()
             try:
-                r.headers.add('X-MW', label)
+                r.headers.add('X-MW', self_.label)
             except Exception:
                 pass
             return r
-        cls = type('Stamp_%s' % label, (Middleware,), {'request': request})
-        return cls()
+        self.__dict__.setdefault('mw_type', {})
+        if getattr(self, 'stamp_classes', None) and self.rng.chance(0.25):
+            # another instance of a class some other application uses already: where both meet on a route, the one of the
+            # embedding application stays (a unique type appears once) - and it is *that* instance, stamping its own label
+            cls = self.rng.pick(self.stamp_classes)
+            inst = cls()
+            inst.label = label
+            self.mw_type[label] = cls.__name__
+            self.sh.hit('one-middleware-class-several-instances')
+            return inst
+        # middleware types of different applications are often related by inheritance (a project's base middleware):
+        # related is not the same - each is a type of its own
+        base = Middleware
+        if getattr(self, 'stamp_classes', None) and self.rng.chance(0.5):
+            base = self.rng.pick(self.stamp_classes)
+            self.sh.hit('middleware-types-related-by-inheritance')
+        cls = type('Stamp_%s' % label, (base,), {'request': request})
+        self.__dict__.setdefault('stamp_classes', []).append(cls)
+        inst = cls()
+        inst.label = label
+        self.mw_type[label] = cls.__name__
+        return inst
 
     def route_fp(self, route):
         return (route.pattern, id(route.endpoint), id(route.render), tuple(id(m) for m in route.middlewares),
@@ -218,7 +238,7 @@ class World(object):
         # renderers are not re-bound by default: an embedded route keeps the factory it was bound with, unless it
         # had none - then the embedding application's factory fills in
         block = [dict(e, pattern=prefix.rstrip('/') + e['pattern'],
-                      mws=list(target['mws']) + [m for m in e['mws'] if m not in target['mws']],
+                      mws=list(target['mws']) + [m for m in e['mws'] if self.mw_type.get(m, m) not in [self.mw_type.get(t, t) for t in target['mws']]],
                       render=(target['factory'] if (e.get('render') == 'noop' and target['factory']) else e.get('render')))
                  for e in inner['table']]
         if any(e.get('render') for e in block):
